@@ -245,6 +245,7 @@ func c34(r *core.Run) {
 				"a non-nil record is returned only when ParseAddress accepted it", "a record can be returned that ParseAddress did not accept")
 		})
 	}
+	keyAddressRules(r, "C34.P2", "NewOverlayAddress")
 }
 
 // reaches: value p flows into v through append/slice/convert/phi/copy-free operations and
